@@ -167,6 +167,60 @@ func getValues(queryFile string, extraAsserts []string, terms []string, dir, nam
 	return res, true
 }
 
+// checkPinned asks whether the query stays satisfiable with extra
+// constraints. With dropQuant, assumed facts that contain quantifiers are
+// left out (the goal, which is the last assert, is kept).
+func checkPinned(queryFile string, extra []string, dir, name string, dropQuant bool) string {
+	return checkPinnedImpl(queryFile, extra, dir, name, dropQuant, true)
+}
+
+// checkPinnedNoGoal: the same without the negated goal (do the definitions,
+// the inputs and the observed outputs agree at all?).
+func checkPinnedNoGoal(queryFile string, extra []string, dir, name string) string {
+	return checkPinnedImpl(queryFile, extra, dir, name, true, false)
+}
+
+func checkPinnedImpl(queryFile string, extra []string, dir, name string, dropQuant, keepGoal bool) string {
+	b, err := os.ReadFile(queryFile)
+	if err != nil {
+		return "error"
+	}
+	txt := string(b)
+	i := strings.LastIndex(txt, "(check-sat)")
+	if i < 0 {
+		return "error"
+	}
+	lines := strings.Split(txt[:i], "\n")
+	goal := -1
+	for k := len(lines) - 1; k >= 0; k-- {
+		if strings.HasPrefix(lines[k], "(assert (not ") {
+			goal = k
+			break
+		}
+	}
+	var sb strings.Builder
+	for k, ln := range lines {
+		if k == goal && !keepGoal {
+			continue
+		}
+		// contract-derived assumptions carry no :pattern; definitional axioms
+		// (string rows, substrings, address model) do and are kept
+		if dropQuant && k != goal && strings.HasPrefix(ln, "(assert ") && !strings.Contains(ln, ":pattern") && (strings.Contains(ln, "(forall ") || strings.Contains(ln, "(exists ")) {
+			continue
+		}
+		sb.WriteString(ln)
+		sb.WriteString("\n")
+	}
+	for _, a := range extra {
+		sb.WriteString("(assert " + a + ")\n")
+	}
+	sb.WriteString("(check-sat)\n")
+	p := filepath.Join(dir, name+".gv.smt2")
+	os.WriteFile(p, []byte(sb.String()), 0o644)
+	r := runOneNamed("z3-new", p, 20)
+	return r.Status
+}
+
 type replayParam struct {
 	Name string
 	T    types.Type
@@ -655,7 +709,7 @@ func tryReplay(eng *Engine, o *Obligation, dir, name string) map[string]interfac
 				small = append(small, and(sx("<=", num(-lim), t), sx("<=", t, num(lim))))
 			}
 		}
-		b.vals, ok = getValues(o.queryFile, small, b.terms, dir, name+".1")
+		b.vals, ok = getValues(o.queryFile, append(small, o.pins...), b.terms, dir, name+".1")
 		if ok {
 			break
 		}
@@ -716,7 +770,10 @@ func tryReplay(eng *Engine, o *Obligation, dir, name string) map[string]interfac
 	var outs strings.Builder
 	for i, p := range c.replayParams {
 		if p.V.K == kPtr {
-			fmt.Fprintf(&outs, "\tif %s != nil {\n\t\tfmt.Printf(\"GOVC-OUT %s %%s\\n\", govcFmt(*%s))\n\t}\n", args[i], p.Name, args[i])
+			fmt.Fprintf(&outs, "\tif %s != nil {\n\t\tfmt.Printf(\"GOVC-OUT %d %%s\\n\", govcFmt(*%s))\n\t}\n", args[i], i, args[i])
+		}
+		if p.V.K == kSlice {
+			fmt.Fprintf(&outs, "\tfmt.Printf(\"GOVC-OUT %d %%s\\n\", govcFmt(%s))\n", i, args[i])
 		}
 	}
 	imports := ""
@@ -769,19 +826,43 @@ func tryReplay(eng *Engine, o *Obligation, dir, name string) map[string]interfac
 			if n, _ := fmt.Sscanf(ln, "GOVC-RESULT %d %s", &idx, &val); n == 2 && idx < len(c.resultVals) {
 				obs = append(obs, b.observe(c.resultVals[idx], val)...)
 			}
+			// slice parameters as the real code left them (contents only)
+			if n, _ := fmt.Sscanf(ln, "GOVC-OUT %d %s", &idx, &val); n == 2 && idx < len(c.replayParams) {
+				if pv := c.replayParams[idx].V; pv.K == kSlice && strings.HasPrefix(val, "bytes:") {
+					for _, ob := range b.observe(pv, val) {
+						if strings.Contains(ob, "select") {
+							obs = append(obs, ob)
+						}
+					}
+				}
+			}
 		}
-		_, okIn := getValues(o.queryFile, pins, []string{"0"}, dir, name+".in")
-		_, okOut := getValues(o.queryFile, append(append([]string{}, pins...), obs...), []string{"0"}, dir, name+".out")
+		// The definitions of the prefix, the pinned inputs and the observed
+		// outputs determine the clause; assumed facts with quantifiers are
+		// left out of this query so that the solver can answer "sat".
+		stOut := checkPinned(o.queryFile, append(append([]string{}, pins...), obs...), dir, name+".out", true)
 		rec["observed_constraints"] = obs
-		switch {
-		case okOut:
+		switch stOut {
+		case "sat":
 			rec["confirmed"] = true
-			rec["reason"] = "with the inputs and the observed results fixed, the negated clause is still satisfiable: the real outcome violates the clause"
-		case okIn:
-			rec["reason"] = "ENGINE-MISMATCH: the real code's results differ from the engine's symbolic result on this input"
-			rec["engine_mismatch"] = true
+			rec["reason"] = "with the inputs and the observed results fixed, the negated clause is satisfiable: the real outcome violates the clause"
+		case "unsat":
+			stIn := checkPinned(o.queryFile, pins, dir, name+".in", true)
+			if stIn == "sat" {
+				// the clause fails in the engine's execution of this input but
+				// not with the outputs the real code produced
+				stAgree := checkPinnedNoGoal(o.queryFile, append(append([]string{}, pins...), obs...), dir, name+".agree")
+				if stAgree == "unsat" {
+					rec["reason"] = "ENGINE-MISMATCH: the real code's results differ from the engine's symbolic result on this input"
+					rec["engine_mismatch"] = true
+				} else {
+					rec["reason"] = "the real outcome satisfies the clause on this input (the model relied on an over-approximation)"
+				}
+			} else {
+				rec["reason"] = "the pinned model could not be re-established"
+			}
 		default:
-			rec["reason"] = "the pinned model could not be re-established"
+			rec["reason"] = "the solver could not evaluate the clause on the observed outcome (" + stOut + ")"
 		}
 	default:
 		rec["confirmed"] = false
@@ -834,6 +915,20 @@ func (b *rb) observe(rv Val, val string) []string {
 		var ln2 int
 		fmt.Sscanf(val[6:], "%d", &ln2)
 		obs = append(obs, eq(rv.Len, num(int64(ln2))), not(eq(rv.Ref, "0")))
+		// contents of a byte slice as the real code left them
+		if strings.HasPrefix(val, "bytes:") && b.c.exitState != nil {
+			parts := strings.SplitN(val, ":", 3)
+			if len(parts) == 3 {
+				raw, _ := hex.DecodeString(parts[2])
+				key := heapKey(rv.Root, nil)
+				if _, used := b.c.heapSort[key]; used {
+					h := b.c.heapGet(b.c.exitState, key, "Int")
+					for i := 0; i < len(raw) && i < 96; i++ {
+						obs = append(obs, eq(sx("select", sx("select", h, rv.Ref), add(rv.Off, num(int64(i)))), num(int64(raw[i]))))
+					}
+				}
+			}
+		}
 	}
 	return obs
 }
